@@ -54,6 +54,7 @@ wrong-on-plain-numbers: decided by a fixed probe battery (``battery``: FUNC over
 not on what else the failing range contained; else wrong-value/<input class>.  LAW/... for relations.
 """
 import itertools
+import os
 from fractions import Fraction
 
 from vp import lib, wb
@@ -1006,12 +1007,84 @@ def sampled(ctx):
             ctx.count('sampled')
 
 
+def table_references(ctx):
+    """an aggregate over a structured table reference uses the cells of that table column, wherever the formula is:
+    on the table's sheet and on another sheet that has numbers of its own at the same coordinates; each must equal
+    the same aggregate over the written range"""
+    import logging
+    import warnings
+    from openpyxl import Workbook
+    from openpyxl.worksheet.table import Table
+    from pycel import ExcelCompiler
+    amount = [10, '7', 'abc', True, 2.5, None, -4]
+    weight = [3, 4, None, 1, 2, 5, 0.5]
+    book = Workbook()
+    data = book.active
+    data.title = 'Data'
+    data['B3'], data['C3'], data['D3'] = 'item', 'amount', 'weight'
+    for i, (a, w) in enumerate(zip(amount, weight), start=4):
+        data[f'B{i}'] = f'item{i}'
+        if a is not None:
+            data[f'C{i}'] = a
+        if w is not None:
+            data[f'D{i}'] = w
+    last = 3 + len(amount)
+    data.add_table(Table(displayName='Table1', ref=f'B3:D{last}'))
+    report = book.create_sheet('Report')
+    for i in range(4, last + 1):
+        report[f'C{i}'] = 1000 * i
+        report[f'D{i}'] = -i
+    pairs = []
+    funcs = ['SUM({})', 'AVERAGE({})', 'MIN({})', 'MAX({})', 'COUNT({})', 'SUBTOTAL(9,{})', 'SUBTOTAL(101,{})']
+    row = 1
+    for f in funcs:
+        for sheet in (report, data):
+            col_t, col_r = ('J', 'K') if sheet is data else ('A', 'B')
+            sheet[f'{col_t}{row}'] = '=' + f.format('Table1[amount]')
+            sheet[f'{col_r}{row}'] = '=' + f.format(f'Data!C4:C{last}')
+            pairs.append((f.format('Table1[amount]'), sheet.title, f'{col_t}{row}', f'{col_r}{row}'))
+        row += 1
+    for sheet in (report, data):
+        col_t, col_r = ('J', 'K') if sheet is data else ('A', 'B')
+        sheet[f'{col_t}{row}'] = '=SUMPRODUCT(Table1[amount],Table1[weight])'
+        sheet[f'{col_r}{row}'] = f'=SUMPRODUCT(Data!C4:C{last},Data!D4:D{last})'
+        pairs.append(('SUMPRODUCT(Table1[amount],Table1[weight])', sheet.title, f'{col_t}{row}', f'{col_r}{row}'))
+    logging.disable(logging.CRITICAL)
+    path = os.path.join(ctx.tmpdir, 'tables.xlsx')
+    book.save(path)
+    with warnings.catch_warnings():
+        warnings.simplefilter('ignore')
+        comp = ExcelCompiler(filename=path)
+    for text, sheet, a, b in pairs:
+        ctx.count('table-reference-cases')
+        ctx.case(('table', text, sheet))
+        got = attempt(comp.evaluate, f'{sheet}!{a}')
+        want = attempt(comp.evaluate, f'{sheet}!{b}')
+        if got != want:
+            ctx.violation('table-reference/differs-from-the-written-range/' +
+                          ('other-sheet' if sheet == 'Report' else 'own-sheet'),
+                          f'={text} on sheet {sheet} gives {got!r}; the same aggregate over Data!C4:C{last} gives '
+                          f'{want!r}', {'kind': 'tables'})
+
+
+def attempt(fn, *a):
+    try:
+        return ('v', fn(*a))
+    except Exception as exc:   # noqa
+        return ('x', type(exc).__name__)
+
+
 def run(ctx):
+    if ctx.shard == 0:
+        table_references(ctx)
     exhaustive(ctx)
     fixed(ctx, 3 if ctx.quick else 30)
     sampled(ctx)
 
 
 def replay(ctx, case):
+    if case.get('kind') == 'tables':
+        table_references(ctx)
+        return
     sc = {k: v for k, v in case.items() if k != 'failing'}
     execute(ctx, sc)
